@@ -803,6 +803,13 @@ impl<'a, Octs: Octets> MessageAs4<'a, Octs> {
         )
     }
 
+    /// Verification hook: the octets of the embedded BGP message as the
+    /// record carries them, whether or not they parse.
+    #[cfg(nlnetlabs_routecore_verif)]
+    pub fn verif_bgp_octets(&self) -> &[u8] {
+        self.bgp_msg.peek_all()
+    }
+
     pub fn peer_asn(&self) -> Asn { self.peer_asn }
     pub fn local_asn(&self) -> Asn { self.local_asn }
     pub fn interface(&self) -> u16 { self.interface }
